@@ -108,10 +108,57 @@ Proof.
   rewrite state_after_contents. rewrite frame_init_contents. reflexivity.
 Qed.
 
+(* ---------- argument conversion of DataFrame.collect ---------- *)
+Lemma fits_int32_spec : forall z, fits_int32 z = true <-> (-2147483648 <= z <= 2147483647)%Z.
+Proof. intros z. unfold fits_int32. lia. Qed.
+
+Lemma in_range_fits : forall (w : nat) (cols : list Z),
+  (Z.of_nat w <= 2147483648)%Z -> (forall c, In c cols -> (0 <= c < Z.of_nat w)%Z) ->
+  forallb fits_int32 cols = true.
+Proof.
+  intros w cols Hw Hc. apply forallb_forall. intros c Hin. apply fits_int32_spec.
+  specialize (Hc c Hin). lia.
+Qed.
+
+Lemma df_conv_fits : forall (rows : list (rowobj A)) (cols : list Z) (limit : option Z),
+  forallb fits_int32 cols = true -> limit_fits limit = true ->
+  df_collect_conv rows cols limit = df_collect rows cols limit.
+Proof. intros rows cols limit H1 H2. unfold df_collect_conv. rewrite H1, H2. reflexivity. Qed.
+
+(* an index outside the int32 range, or a limit above INT_MAX: OverflowError, whatever the rows *)
+Lemma df_conv_overflow : forall (rows : list (rowobj A)) (cols : list Z) (limit : option Z),
+  (exists c, In c cols /\ ((c < -2147483648)%Z \/ (2147483647 < c)%Z)) \/
+  (exists l, limit = Some l /\ (2147483647 < l)%Z) ->
+  df_collect_conv rows cols limit = Raise OverflowError.
+Proof.
+  intros rows cols limit H. unfold df_collect_conv.
+  destruct (forallb fits_int32 cols) eqn:Hf; [|reflexivity].
+  destruct (limit_fits limit) eqn:Hl; [|reflexivity]. exfalso.
+  destruct H as [[c [Hin Hc]]|[l [-> Hc]]].
+  - rewrite forallb_forall in Hf. specialize (Hf c Hin). apply fits_int32_spec in Hf. lia.
+  - cbn [limit_fits] in Hl. lia.
+Qed.
+
+(* rectangular tuple rows: an index outside 0..width-1 - however far outside - never yields a result *)
+Lemma df_conv_outside_never_ok : forall (w : nat) (rows : list (list A)) (cols : list Z) (limit : option Z),
+  rectangular A w rows -> rows <> [] ->
+  (exists c, In c cols /\ ((c < 0)%Z \/ (Z.of_nat w <= c)%Z)) ->
+  forall res, df_collect_conv (map RTuple rows) cols limit <> Ok res.
+Proof.
+  intros w rows cols limit Hr Hne Hex res. unfold df_collect_conv.
+  destruct (forallb fits_int32 cols && limit_fits limit); [|discriminate].
+  unfold df_collect.
+  destruct (collect_correct A w rows cols
+              (match limit with None => (-1)%Z | Some l => if (l <? 0)%Z then (-1)%Z else l end) Hr)
+    as [_ H2].
+  destruct (H2 Hne) as [_ H3]. destruct H3 as [H3 _]. rewrite (H3 Hex). discriminate.
+Qed.
+
 (* a collect after any append-free history of a frame of rectangular tuple rows is the definition *)
 Lemma frame_collect_correct : forall (w : nat) (k : backing) (rows : list (list A))
                                      (pre : list (fop A)) (cols : list Z) (limit : option Z),
   rectangular A w rows -> rows <> [] -> forallb is_read pre = true ->
+  (Z.of_nat w <= 2147483648)%Z -> limit_fits limit = true ->
   (forall c, In c cols -> (0 <= c < Z.of_nat w)%Z) ->
   exists res,
     nth_error (run (frame_init k (map RTuple rows)) (pre ++ [OpCollect cols limit])) (length pre)
@@ -119,12 +166,13 @@ Lemma frame_collect_correct : forall (w : nat) (k : backing) (rows : list (list 
     collect_def rows cols (match limit with None => length rows | Some l => eff_limit l (length rows) end)
       = Some res.
 Proof.
-  intros w k rows pre cols limit Hr Hne Hpre Hc.
+  intros w k rows pre cols limit Hr Hne Hpre Hw Hl Hc.
   assert (Hops : forallb (is_read (A := A)) [OpCollect cols limit] = true) by reflexivity.
   rewrite (frame_any_history k (map RTuple rows) pre [OpCollect cols limit] Hops).
   rewrite (appended_reads pre _ Hpre). rewrite app_nil_r.
   rewrite nth_error_app2; [|rewrite run_length; apply Nat.le_refl].
   rewrite run_length. rewrite Nat.sub_diag. cbn [map nth_error read_out].
+  rewrite (df_conv_fits _ cols limit (in_range_fits w cols Hw Hc) Hl).
   unfold df_collect.
   destruct (collect_correct A w rows cols
               (match limit with None => (-1)%Z | Some l => if (l <? 0)%Z then (-1)%Z else l end) Hr)
